@@ -74,17 +74,17 @@ def run(ctx):
         if st == "ok" and isinstance(t, dict):
             solo[s] = t
     pool = list(solo)
-    seps = [";", ";;", "; \n", " ;\n", ";\n\n;", " ; "]
+    seps = [";", ";;", "; \n", " ;\n", ";\n\n;", " ; ", "; /* c; */ ;", "; -- x\n;", ";# y\n ;"]      # an empty statement may consist of a comment
     found = 0
     for _ in range(ctx.n(400, 6000)):
         n = rnd.randint(0, 6)
         stm = [rnd.choice(pool) for _ in range(n)]
-        script = rnd.choice(["", ";", " ", ";;\n", "-- lead;\n"])
+        script = rnd.choice(["", ";", " ", ";;\n", "-- lead;\n", "/* hdr */;-- x\n;", "/* only */;"])
         for i, s in enumerate(stm):
             script += s
             if i < n - 1 or rnd.random() < 0.6:
                 script += rnd.choice(seps)
-        script += rnd.choice(["", " ", "\n", "-- end; x", "/* ; */"])
+        script += rnd.choice(["", " ", "\n", "-- end; x", "/* ; */", "; -- done\n;", ";/* c */;"]) if n else rnd.choice(["", " ", "-- end; x", "/* ; */", ";-- comments\n;"])
         want = None if n == 0 else (solo[stm[0]] if n == 1 else [solo[s] for s in stm])
         st, got = impl.outcome(M.parse, script)
         ctx.count(1, script)
